@@ -42,6 +42,13 @@ def showItem (t : Item) : String :=
 
 def showErr (e : Err) : String := "err " ++ e.tag
 
+/-- a `lock_to_index` beyond the reported chain: outside the property, the history stops before the call -/
+def beyond (rev : Bool) (bc : BC) : Step → Bool
+  | .lock index _ => match bc.length rev with
+    | .ok n => index > n
+    | .error _ => false
+  | _ => false
+
 /-- everything the harness reads after a step -/
 def observe (rev : Bool) (hdrs : List Header) (isAdd : Bool) (o : Obs) (bc : BC) : Except Err String := do
   let n ← bc.length rev
@@ -49,15 +56,14 @@ def observe (rev : Bool) (hdrs : List Header) (isAdd : Bool) (o : Obs) (bc : BC)
   let tups ← (List.range n).mapM (bc.tupleForIndex rev)
   let last ← bc.lastBlockHash rev
   let sops := if isAdd then dots (o.ops.map showOp) else "~"
-  let lk := match o.lockCb with
-    | none => "~"
-    | some (items, old) => s!"{old}:" ++ dots (items.map fun (t : Item) => toString t.1)
+  let lk := "~"   -- `did_lock_to_index_f` is modelled (`Obs.lockCb`) but not part of the property: not compared
   let idx := dots (hdrs.map fun h => s!"{h.hash}:" ++ (match bc.indexForHash h.hash with | some i => toString i | none => "-"))
   .ok (s!"ops={sops};cb={sops};lk={lk};len={n};locked={bc.locked.length};chain={dots (chain.map toString)};last={last};idx={idx};tup={dots (tups.map showItem)}")
 
 def run (rev : Bool) (hdrs : List Header) : List Step → BC → List String → List String
   | [], _, acc => acc.reverse
   | s :: ss, bc, acc =>
+    if beyond rev bc s then ("outside" :: acc).reverse else
     match bc.step rev s with
     | .error e => (showErr e :: acc).reverse
     | .ok (o, bc') =>
@@ -95,6 +101,7 @@ def cacheB (bc : BC) : Bool :=
 def runInv (rev : Bool) : List Step → BC → List String → List String
   | [], _, acc => acc.reverse
   | s :: ss, bc, acc =>
+    if beyond rev bc s then ("outside" :: acc).reverse else
     match bc.step rev s with
     | .error e => (showErr e :: acc).reverse
     | .ok (_, bc') =>
